@@ -61,7 +61,7 @@ var c08Outcomes = []string{"ok", "ok", "ok", "et", "ep", "pe", "ps", "pS", "pi",
 	"pk", "pK", "pm", "sl2000,ps", "sl5000,pn", "sL300,pe", "sl3000,cx,pk", "y2,pm"}
 
 func genSrvReq(g *simrt.Tape) *ReqSc {
-	rs := &ReqSc{Version: g.Draw(5), Option: g.Draw(3), Hdr: genHdr(g)}
+	rs := &ReqSc{Version: g.Draw(5), Option: g.Draw(3), Hdr: genHdr(g), IDs: genIDs(g)}
 	if g.Draw(40) == 0 {
 		rs.Pad = []int{9000, 80000, 200000, 900000}[g.Draw(4)]
 	}
